@@ -2,7 +2,7 @@
    Statements only (copied from the lemma libraries); every proof is a bare
    `exact`; see the cited files in coq/proofs for the proofs. *)
 From Coq Require Import List NArith ZArith Bool Arith Sorting.Sorted Sorting.Permutation.
-From D2P Require Import Str Err Iter IterFacts IterProps MiscFacts.
+From D2P Require Import Str Err Iter IterFacts IterProps MiscFacts PyVal Source SourceBase ViewFacts SourceIter.
 Import ListNotations.
 Local Open Scope nat_scope.
 
@@ -68,3 +68,49 @@ Theorem C20_html_map_total :
   leaves_at 5 tables -> exists s, get_html_map tables = Ok s.
 Proof. exact html_map_total_leaves. Qed.
 Print Assumptions C20_html_map_total.
+
+(* TIE TO THE SOURCE TEXT (gen/Source.v is regenerated from /repo by tools/gen_source.py on every run): iterators.enum_at_depth as translated from the Python source equals the model's enum_at_depth on EVERY nested list and EVERY depth, error outcomes included (leaves that cannot be iterated) *)
+Theorem C20_source_enum_at_depth :
+  forall A (f : A -> pv) (t : rose A) (d : nat) fuel,
+  atomic_leaves f -> (5 < fuel)%nat ->
+  S_enum_at_depth fuel (enc_rose f t) (VInt (Z.of_nat d)) = lift_enum f (enum_at_depth t d).
+Proof. exact src_enum_at_depth. Qed.
+Print Assumptions C20_source_enum_at_depth.
+
+(* the same for any leaves (strings included) when the items above the requested depth are lists - the lists C20 quantifies over *)
+Theorem C20_source_enum_at_depth_deep :
+  forall A (f : A -> pv) (t : rose A) (d k : nat) fuel,
+  (1 <= d <= 5)%nat -> deep (d + k) t -> (5 < fuel)%nat ->
+  S_enum_at_depth fuel (enc_rose f t) (VInt (Z.of_nat d)) = lift_enum f (enum_at_depth t d).
+Proof. exact src_enum_at_depth_deep. Qed.
+Print Assumptions C20_source_enum_at_depth_deep.
+
+(* the translated source raises ValueError for every other integer depth, whatever the argument *)
+Theorem C20_source_bad_depth :
+  forall v z fuel,
+  (0 < fuel)%nat -> (z < 1 \/ 5 < z)%Z -> S_enum_at_depth fuel v (VInt z) = Err ValueError.
+Proof. exact src_enum_at_depth_bad. Qed.
+Print Assumptions C20_source_bad_depth.
+
+(* iterators.iter_at_depth as translated from the source equals the model's *)
+Theorem C20_source_iter_at_depth :
+  forall A (f : A -> pv) (t : rose A) (d : nat) fuel,
+  atomic_leaves f -> (5 < fuel)%nat ->
+  S_iter_at_depth fuel (enc_rose f t) (VInt (Z.of_nat d)) = lift_items f (iter_at_depth t d).
+Proof. exact src_iter_at_depth. Qed.
+Print Assumptions C20_source_iter_at_depth.
+
+(* so do iter_tables / iter_rows / iter_cells / iter_paragraphs / enum_tables / enum_rows / enum_cells / enum_paragraphs *)
+Theorem C20_source_named_helpers :
+  forall A (f : A -> pv) (t : rose A) fuel,
+  atomic_leaves f -> (5 < fuel)%nat ->
+  S_iter_tables fuel (enc_rose f t) = lift_items f (iter_tables t) /\
+  S_iter_rows fuel (enc_rose f t) = lift_items f (iter_rows t) /\
+  S_iter_cells fuel (enc_rose f t) = lift_items f (iter_cells t) /\
+  S_iter_paragraphs fuel (enc_rose f t) = lift_items f (iter_paragraphs t) /\
+  S_enum_tables fuel (enc_rose f t) = lift_enum f (enum_tables t) /\
+  S_enum_rows fuel (enc_rose f t) = lift_enum f (enum_rows t) /\
+  S_enum_cells fuel (enc_rose f t) = lift_enum f (enum_cells t) /\
+  S_enum_paragraphs fuel (enc_rose f t) = lift_enum f (enum_paragraphs t).
+Proof. exact src_named_helpers. Qed.
+Print Assumptions C20_source_named_helpers.
